@@ -115,10 +115,18 @@ def run_config(beh, seed, workdir, check_bytes=True, return_bytes=False, seed_sh
     reqlog = []
     orig = src.get_samples
 
+    fail_at = [None]          # raise instead of serving the request with this index (0-based) of the current attempt
+
+    class SourceFailure(Exception):
+        pass
+
     def wrapped(n):
+        if fail_at[0] is not None and len(reqlog) == fail_at[0]:
+            raise SourceFailure("the voltage source fails on request %d" % fail_at[0])
         reqlog.append((int(n), bool(src.start_obs)))
         return orig(n)
     src.get_samples = wrapped
+    aborted_rows = 0
     user_dict = {"MYCARD": "abc", "OBSERVER": "tester"}
     first_cards = {}
     all_bytes = []
@@ -133,6 +141,30 @@ def run_config(beh, seed, workdir, check_bytes=True, return_bytes=False, seed_sh
                 kw["header_dict"] = user_dict
             elif cfg["dict"] == "fresh":
                 kw["header_dict"] = {"MYCARD": "abc", "OBSERVER": "tester"}
+            ab = summ.get("abort") or {"n": 0}
+            if ab["n"] == 1 and ab["before"] == r + 1:
+                # an attempt at this recording in which the source fails part-way: record() must propagate the failure,
+                # and the next record() must be unaffected by whatever the attempt left behind
+                fail_at[0] = ab["at"]
+                try:
+                    be.record(stem, **dict(kw))
+                    raise Div("C02|C12", "source_failure_swallowed", "the source's exception propagates", "record() returned", r)
+                except SourceFailure:
+                    pass
+                except Div:
+                    raise
+                except Exception as e:
+                    raise Div("C02|C12", "source_failure_masked", "SourceFailure", "%s: %s" % (type(e).__name__, str(e)[:120]), r)
+                finally:
+                    fail_at[0] = None
+                rows_now = sum(q for q, _ in reqlog) // inst["B"]
+                if rows_now != ab["rows"]:
+                    raise Div("C02|C20", "requests_before_failure", ab["rows"], rows_now, r)
+                aborted_rows += rows_now
+                twin.reset_start()
+                twin.get_samples(rows_now * inst["B"])
+                del reqlog[:]
+                twin.reset_start()
             try:
                 be.record(stem, **kw)
             except Exception as e:
@@ -147,7 +179,7 @@ def run_config(beh, seed, workdir, check_bytes=True, return_bytes=False, seed_sh
             if summ["rowsDrawn"] != nrows:
                 raise RuntimeError("spec summary inconsistent")
             tick = src.t_start * inst["rate"]
-            want_tick = (r + 1) * nrows * B
+            want_tick = ((r + 1) * nrows + aborted_rows) * B
             if abs(tick - want_tick) > 1e-6 * want_tick:
                 raise Div("C20|C10", "clock", want_tick, tick, r)
             if be.num_blocks != cfg["blocks"] or be.samples_per_block != T:
